@@ -137,6 +137,8 @@ class Src(fm.TimeComponent):
 
 
 class Snk(fm.TimeComponent):
+    initial_pull = True  # False: nobody asks the merger for data while connecting; its first request comes from the first update
+
     def __init__(self, name, step):
         super().__init__()
         self._name, self._time, self.step, self.got = name, T0, step, []
@@ -146,7 +148,7 @@ class Snk(fm.TimeComponent):
 
     def _initialize(self):
         self.inputs.add(name="i", time=self.time, grid=fm.NoGrid(), units=None)
-        self.create_connector(pull_data=["i"])
+        self.create_connector(pull_data=["i"] if self.initial_pull else [])
 
     def _connect(self, st):
         had = self.connector.in_data.get("i") is not None
@@ -181,6 +183,8 @@ def run_merger(case):
     s.special = case.get("special")
     w = WeightedSum([f"v{k}" for k in range(n)])
     snks = [Snk(f"K{j}", st) for j, st in enumerate(steps)]
+    for k in snks:
+        k.initial_pull = not case.get("no_initial_pull")
     comps = {"S": s, "W": w, **{k.name: k for k in snks}}
     c = compose([comps[x] for x in order])
     for k in range(n):
@@ -291,6 +295,8 @@ def run(tier, seed, agg):
                     names = ["S", "W"] + [f"K{j}" for j in range(len(steps))]
                     for order in (names, names[::-1]):
                         cases.append(dict(kind="merger", units=list(units), steps=steps, src_step=sstep, order=order, end=6))
+                        if len(set(units)) == 1:
+                            cases.append(dict(kind="merger", units=list(units), steps=steps, src_step=sstep, order=order, end=6, no_initial_pull=True))
     for special in ("zero_weights", "nan"):
         for n in (1, 2):
             for steps in ([1], [1, 1]):
